@@ -3,6 +3,7 @@ package aggregator
 import (
 	"fmt"
 	"reflect"
+	"strconv"
 	"strings"
 	"sync"
 
@@ -287,6 +288,13 @@ func (ga *GroupAggregator) Add(data any) error {
 			if f.IsValid() {
 				fieldVal = f.Interface()
 				found = true
+			}
+		}
+
+		if !found {
+			// count(1), sum(2): a numeric literal as argument is that constant for every row
+			if lit, err := strconv.ParseFloat(inputField, 64); err == nil {
+				fieldVal, found = lit, true
 			}
 		}
 
